@@ -816,7 +816,9 @@ def run_case(spec):
     import warnings
 
     warnings.filterwarnings("ignore")
-    logging.disable(logging.CRITICAL)
+    import common as _common
+
+    _common.quiet_debug_logging()
     rec = Rec(spec)
     try:
         d = build_case_data(spec)
